@@ -173,7 +173,7 @@ type unit struct {
 const nFixed = 4
 
 func units(c *run.Ctx) []unit {
-	nh := c.Pick(30, 120)
+	nh := c.Pick(44, 120)
 	chunks, reps := 1, 3
 	if c.Thorough() {
 		chunks, reps = 4, 5
